@@ -41,7 +41,7 @@ func (f *Frame) loopHead(li *loopInfo, b *ssa.BasicBlock, edges []Edge, pc strin
 		if phi.Comment == "rangeindex" {
 			txt := "(and (bvsle (int -1) rangeindex) (bvslt rangeindex (int 0x4000000000000000)))"
 			if vc.mode == Math {
-				txt = "(<= (- 1) rangeindex)"
+				txt = "(and (<= (- 1) rangeindex) (< rangeindex 4611686018427387904))"
 			}
 			ex, _ := parseSexp(txt)
 			auto := Clause{Labels: []string{"auto.rangeindex"}, Expr: ex, Text: txt}
